@@ -27,7 +27,9 @@ Directives (one per line, leading whitespace ignored):
       //@loopbody K           ... at the start of the K-th loop's body
       //@loopend K            ... at the end of the K-th loop's body
       //@desugar_closure_patterns   rewrite R11 (closure tuple-pattern parameters bound by a let in the closure body)
-      //@model_adapters       rewrite R12 (`X.iter().map(` / `(a..b).map(` -> model adapters `X.verif_iter_map(` / `(a..b).verif_map(`)
+      //@model_adapters       rewrite R12 (`X.iter().map(` / `(a..b).map(` -> model adapters `X.verif_iter_map(` / `(a..b).verif_map(`;
+                              `X.iter().cloned().max()`, `IT.max()`, `X.extend(V)` -> verified models verif_iter_cloned_max / verif_max / verif_extend)
+      //@deref_operand NAME   rewrite R14 (`NAME & E`, NAME a reference -> `*NAME & E`)
       //@lettype NAME TYPE    the deferred-initialisation `let NAME;` gets the type ascription `let NAME: TYPE;` (Verus needs the
                               type where a loop contract mentions the variable; a wrong TYPE is a compile error = undecided)
       //@before "TEXT" [#k]   ... before the k-th statement-start occurrence of TEXT
@@ -233,6 +235,32 @@ def rw_model_adapters(text):
         return m.group(1) + '.verif_map('
     text = re.sub(r'\.iter\(\)\s*\.map\(', f1, text)
     text = re.sub(r'(\(\s*[A-Za-z0-9_]+\s*\.\.\s*[A-Za-z0-9_]+\s*\))\.map\(', f2, text)
+    # `X.iter().cloned().max()` (X a Vec<u64>), `IT.max()` (IT a model iterator over u64), `X.extend(V)` (X, V: Vec<T>):
+    # renamed to the verified models `verif_iter_cloned_max` / `verif_max` / `verif_extend` of specs/iter_model.vrs
+    for rx, rep in ((r'\.iter\(\)\s*\.cloned\(\)\s*\.max\(\)', '.verif_iter_cloned_max()'), (r'\.max\(\)', '.verif_max()'), (r'\.extend\(', '.verif_extend(')):
+        mask = code_mask(text)
+
+        def f3(m, rep=rep, mask=mask):
+            if not mask[m.start()]:
+                return m.group(0)
+            n[0] += 1
+            return rep
+        text = re.sub(rx, f3, text)
+    return text, n[0]
+
+
+def rw_deref_operand(text, name):
+    """R14: `NAME & E` with NAME a `&u64` (the item of a slice iterator) -> `*NAME & E`: std's forwarding impl `impl BitAnd<u64> for &u64`
+    is `*self & other`; Verus has no operators on references"""
+    mask = code_mask(text)
+    n = [0]
+
+    def f(m):
+        if not mask[m.start(1)]:
+            return m.group(0)
+        n[0] += 1
+        return '*' + m.group(1) + ' & '
+    text = re.sub(r'(?<![\w*.&])(' + re.escape(name) + r')\s+&\s+(?!&)', f, text)
     return text, n[0]
 
 
@@ -486,8 +514,14 @@ def weave_fn(src, container, name, nth, opts, subs, mode, sig_only=False):
     if any(kind == 'model_adapters' for kind, arg, lines in subs):
         text, k = rw_model_adapters(text)
         if not k:
-            raise Undecided('anchor lost: no `.iter().map(` / `(a..b).map(` in %s::%s' % (container, name))
+            raise Undecided('anchor lost: no std adapter call (`.iter().map(`, `(a..b).map(`, `.max()`, `.extend(`) in %s::%s' % (container, name))
         rewrites['R12'] = k
+    for kind, arg, lines in subs:
+        if kind == 'deref_operand':
+            text, k = rw_deref_operand(text, arg.strip())
+            if not k:
+                raise Undecided('anchor lost: no `%s & ..` in %s::%s' % (arg.strip(), container, name))
+            rewrites['R14'] = rewrites.get('R14', 0) + k
     for kind, arg, lines in subs:
         if kind in ('desugar_for', 'desugar_for_into'):
             text, k = rw_for_iter(text, int(arg.strip() or '1'), into=(kind == 'desugar_for_into'))
@@ -567,7 +601,7 @@ def weave_fn(src, container, name, nth, opts, subs, mode, sig_only=False):
     # collect sub-directives
     for kind, arg, lines in subs:
         body_text = '\n'.join(lines)
-        if kind in ('inst', 'rename_generic', 'desugar_by_ref', 'desugar_for', 'desugar_for_into', 'desugar_closure_patterns', 'model_adapters'):
+        if kind in ('inst', 'rename_generic', 'desugar_by_ref', 'desugar_for', 'desugar_for_into', 'desugar_closure_patterns', 'model_adapters', 'deref_operand'):
             continue
         if kind == 'attr':
             if not sig_only:
